@@ -10,6 +10,11 @@ import (
 	"strings"
 )
 
+// labelMsg is label() with the diagnostic itself as the observation
+func labelMsg(id string, code string) string {
+	return fmt.Sprintf("echo \"\\n@B|%s\\n\"; try { %s } catch (\\Throwable $e) { echo get_class($e), \": \", $e->getMessage(); } echo \"\\n@E|%s\\n\";\n", id, code, id)
+}
+
 func genDiagProgram(r *rand.Rand, uncaught bool) string {
 	var sb strings.Builder
 	sb.WriteString("<?php\n")
@@ -27,7 +32,7 @@ func genDiagProgram(r *rand.Rand, uncaught bool) string {
 		sb.WriteString("  abstract function " + m + "();\n")
 	}
 	sb.WriteString("}\n")
-	sb.WriteString(label("abstract-missing", "class C20AbsImpl extends C20Abs { function "+am[0]+"() {} } $t = new C20AbsImpl(); echo 'created';"))
+	sb.WriteString(labelMsg("abstract-missing", "class C20AbsImpl extends C20Abs { function "+am[0]+"() {} } $t = new C20AbsImpl(); echo 'created';"))
 	// 2. interface methods left unimplemented
 	im := names("im", 3+r.Intn(4))
 	sb.WriteString("interface C20Ifc {\n")
@@ -35,7 +40,7 @@ func genDiagProgram(r *rand.Rand, uncaught bool) string {
 		sb.WriteString("  function " + m + "();\n")
 	}
 	sb.WriteString("}\n")
-	sb.WriteString(label("interface-missing", "class C20IfcImpl implements C20Ifc { function "+im[0]+"() {} } $t = new C20IfcImpl(); echo 'created';"))
+	sb.WriteString(labelMsg("interface-missing", "class C20IfcImpl implements C20Ifc { function "+im[0]+"() {} } $t = new C20IfcImpl(); echo 'created';"))
 	// 3. two interfaces, nothing implemented
 	jm := names("jm", 2+r.Intn(3))
 	sb.WriteString("interface C20IfcB {\n")
@@ -43,7 +48,7 @@ func genDiagProgram(r *rand.Rand, uncaught bool) string {
 		sb.WriteString("  function " + m + "();\n")
 	}
 	sb.WriteString("}\n")
-	sb.WriteString(label("two-interfaces-missing", "class C20IfcImpl2 implements C20Ifc, C20IfcB { } $t = new C20IfcImpl2(); echo 'created';"))
+	sb.WriteString(labelMsg("two-interfaces-missing", "class C20IfcImpl2 implements C20Ifc, C20IfcB { } $t = new C20IfcImpl2(); echo 'created';"))
 	if uncaught {
 		// the same kind of error, uncaught: the diagnostic goes to stderr and decides the exit status
 		sb.WriteString("echo \"\\n@B|tail\\n\";\n")
